@@ -39,7 +39,7 @@ void run(Src &src, Case &c)
 {
     xmlKeepBlanksDefault(1);
     // ---- plan, drawn first
-    const bool extMove = src.flip(35);
+    const bool extMove = src.flip(60);
     const bool extReaders = src.flip(45);
     const size_t nMeta = 1 + src.below(3);
     std::vector<MetaPlan> metaPlan(nMeta);
@@ -110,21 +110,40 @@ void run(Src &src, Case &c)
     analyse(base, ob);
     c.count("analyses");
     c.cls("type:" + ob.type);
+    auto uniformlyNamed = [&](const TM &x, Obs &ox) {
+        TM u = x;
+        renameVariablesUniform(u);
+        analyse(u, ox);
+        c.count("analyses");
+    };
+    if (!ob.sig.empty()) {
+        // monitor, exception or a malformed analyser model
+        std::string s = ob.sig;
+        if (s.compare(0, 7, "C05.wf|") == 0) {
+            Obs ou;
+            uniformlyNamed(base, ou);
+            if (ou.sig.empty()) {
+                s = "C05.name-dependent|" + stripId(s);
+            }
+        }
+        report(c, s, ob.msg + "\n--- analyser model\n" + ob.dump());
+        if (!ob.rolesOk && ob.valid) {
+            return;
+        }
+        if (ob.type == "exception") {
+            return;
+        }
+    }
     std::string msg;
     std::string sig = checkTruth(base, ob, msg);
     if (!sig.empty()) {
         // Does the verdict depend on how the variables are called? (consistent renaming must not matter)
-        if (sig.compare(0, 4, "C05.") == 0) {
-            TM u = base;
-            renameVariablesUniform(u);
-            Obs ou;
-            analyse(u, ou);
-            c.count("analyses");
-            std::string m2;
-            if (checkTruth(u, ou, m2).empty()) {
-                sig = "C05.name-dependent|" + stripId(sig);
-                msg += "\n(the same model with every class of connected variables given one name throughout is classified correctly)";
-            }
+        Obs ou;
+        uniformlyNamed(base, ou);
+        std::string m2;
+        if (ou.sig.empty() && checkTruth(base, ou, m2) != sig) {
+            sig = "C05.name-dependent|" + stripId(sig);
+            msg += "\n(the same model with every class of connected variables given one name throughout does not show this)";
         }
         report(c, sig, msg + "\n--- analyser model\n" + ob.dump());
         return;
@@ -135,7 +154,6 @@ void run(Src &src, Case &c)
         std::vector<TM> stages;
         std::vector<int> applied;
         TM cur = base;
-        std::string label;
         for (int t = 0; t < T_COUNT; ++t) {
             if ((p.mask >> t) & 1u) {
                 applyTransform(cur, t, src, p.scheme);
@@ -149,37 +167,46 @@ void run(Src &src, Case &c)
         c.count("analyses");
         c.count("metamorphic-variants");
         bool primaryChanged = false;
-        std::string vmsg;
-        std::string vsig = ov.sig;
-        bool wf = !vsig.empty();
-        if (wf) {
-            vmsg = ov.msg;
-        } else {
-            vsig = compareObs(base, ob, ov, vmsg, primaryChanged);
-            if (vsig.empty() && ov.errors != 0) {
-                vsig = "valid-with-errors";
-                vmsg = ov.issues;
+        // what differs from the base: a malformed result the base did not have, or another classification
+        auto difference = [&](const Obs &ref, const Obs &ox, std::string &dmsg, bool &isWf) -> std::string {
+            isWf = false;
+            if (!ox.sig.empty() && ox.sig != ref.sig) {
+                isWf = true;
+                dmsg = ox.msg;
+                return ox.sig;
             }
-        }
+            bool pc = false;
+            std::string d = compareObs(base, ref, ox, dmsg, pc);
+            if (&ox == &ov) {
+                primaryChanged = pc;
+            }
+            if (d.empty() && ox.valid && ox.errors != 0) {
+                d = "valid-with-errors";
+                dmsg = ox.issues;
+            }
+            return d;
+        };
+        std::string vmsg;
+        bool wf = false;
+        std::string vsig = difference(ob, ov, vmsg, wf);
         if (primaryChanged) {
             c.cls("primary-variable-changed");
+        }
+        if (!ov.sig.empty() && ov.sig == ob.sig) {
+            c.count("family-member-repeats-base-finding");
         }
         if (vsig.empty()) {
             continue;
         }
         // localise: the first transformation after which the family member differs
-        auto differs = [&](const TM &x, const TM &ref, const Obs &refObs) -> bool {
-            Obs ox;
-            analyse(x, ox);
-            c.count("analyses");
-            bool pc = false;
-            std::string mm;
-            (void)ref;
-            return !ox.sig.empty() || !compareObs(base, refObs, ox, mm, pc).empty() || (ox.valid && ox.errors != 0);
-        };
         size_t culprit = stages.size() - 1;
         for (size_t j = 0; j + 1 < stages.size(); ++j) {
-            if (differs(stages[j], base, ob)) {
+            Obs ox;
+            analyse(stages[j], ox);
+            c.count("analyses");
+            std::string dm;
+            bool w = false;
+            if (!difference(ob, ox, dm, w).empty()) {
                 culprit = j;
                 break;
             }
@@ -187,17 +214,16 @@ void run(Src &src, Case &c)
         // name dependence: with one name per class throughout, do base and family member agree?
         bool nameDependent = false;
         {
-            TM ub = base, us = stages[culprit];
-            renameVariablesUniform(ub);
-            renameVariablesUniform(us);
-            Obs oub;
-            analyse(ub, oub);
-            c.count("analyses");
-            nameDependent = oub.sig.empty() && !differs(us, ub, oub);
+            Obs oub, ous;
+            uniformlyNamed(base, oub);
+            uniformlyNamed(stages[culprit], ous);
+            std::string dm;
+            bool w = false;
+            nameDependent = oub.sig == ob.sig && difference(oub, ous, dm, w) != vsig;
         }
         std::string full;
         if (wf) {
-            full = nameDependent ? "C05.name-dependent|" + stripId(vsig) : vsig;
+            full = nameDependent && vsig.compare(0, 4, "C05.") == 0 ? "C05.name-dependent|" + stripId(vsig) : vsig;
         } else {
             full = std::string(nameDependent ? "C05.name-dependent|metamorphic|" : "C05.metamorphic|") + transformName(applied[culprit]) + "|" + vsig;
         }
@@ -244,7 +270,7 @@ void run(Src &src, Case &c)
             Obs ou;
             analyse(u, ou);
             c.count("analyses");
-            if (ou.sig.empty() && ou.type == expected && ou.errors != 0) {
+            if (ou.sig.empty() && ((ou.type == expected && ou.errors != 0) || (ov.type != expected && ou.type != ov.type))) {
                 vsig = "C05.name-dependent|" + stripId(vsig);
             }
         }
